@@ -27,7 +27,7 @@ RULE = ("sampler {importance, minipcn, emcee, smc, emcee_smc, blackjax_smc} x pr
         "top-level sample_posterior(rng=), flow seed/key only} x seeds {0,1,VERIF_SEED}; each configuration is executed twice "
         "from scratch with numpy/python/torch global generators re-seeded differently and numpy.random.default_rng / the default "
         "orng.ArrayRNG patched to return differently seeded generators in the two runs (and logging their callers); a subset is "
-        "repeated in a fresh interpreter with a different PYTHONHASHSEED; plus pairs of runs that are handed the very same argument objects (a reused sampler_kwargs dictionary). non-trivial = run that consumes random numbers after the "
+        "repeated in a fresh interpreter with a different PYTHONHASHSEED; plus pairs of runs that are handed the very same argument objects (a reused sampler_kwargs dictionary); plus the sample-set operations that take a generator (Samples.rejection_sample, SMCSamples.resample) x {numpy, torch, jax} x {float32, float64} x seeds, twice with differently seeded global sources. non-trivial = run that consumes random numbers after the "
         "initial draw (everything except pure importance sampling with an analytic proposal)")
 ASSUMPTIONS = [
     "stub kernels draw only from the generator object they are handed (minipcn) / from their own RandomState (emcee, like the real package)",
@@ -268,6 +268,63 @@ def run_reused_arguments(cfg):
     return r.dump()
 
 
+def run_sample_ops(cfg):
+    """The sample-set operations that take a generator (rejection_sample, SMCSamples.resample) in every namespace:
+    twice with the same seeded generator and differently seeded global sources (numpy, python, torch)."""
+    import torch
+    from aspire.samples import Samples, SMCSamples
+    from env import get_dtype
+
+    op, ns, dt, seed = cfg["op"], cfg["ns"], cfg["dtype"], cfg["seed"]
+    r = Report()
+    case = {"sample_ops": True, "cfg": cfg}
+    r.case(explorer.digest(case), nontrivial=True)
+    xp = get_xp(ns)
+    N = 12
+    g0 = np.random.default_rng(99)
+    x = g0.normal(size=(N, 2))
+    L, P, Q = -0.5 * (x ** 2).sum(1), np.full(N, -2.0), -0.5 * ((x / 1.5) ** 2).sum(1) - 1.0
+    outs = []
+    for salt in (1, 2):
+        np.random.seed(1000 + salt)
+        random.seed(2000 + salt)
+        torch.manual_seed(3000 + salt)
+        real_default_rng = np.random.default_rng
+        calls = []
+
+        def patched(*a, **k):
+            if a or k:
+                return real_default_rng(*a, **k)
+            calls.append(1)
+            return real_default_rng(500000 + salt + len(calls))
+
+        np.random.default_rng = patched
+        try:
+            kw = dict(x=xp.asarray(x), log_likelihood=xp.asarray(L), log_prior=xp.asarray(P), log_q=xp.asarray(Q),
+                      parameters=["a", "b"], xp=xp, dtype=get_dtype(ns, dt))
+            g = real_default_rng(seed)
+            st0 = g.bit_generator.state
+            if op == "rejection":
+                out = Samples(**kw).rejection_sample(rng=g)
+            else:
+                out = SMCSamples(beta=0.0, **kw).resample(0.5, n_samples=cfg.get("n", N), rng=g)
+            outs.append((digest_arrays([out.x, out.log_likelihood, out.log_prior, out.log_q]), g.bit_generator.state != st0, len(calls)))
+        except Exception as e:
+            from env import exc_site
+
+            r.violation(f"C20/samples.{op}/raises/{type(e).__name__}/{exc_site(e)}/{ns}", repr(e)[:200], case)
+            return r.dump()
+        finally:
+            np.random.default_rng = real_default_rng
+    r.outcomes.add(outs[0][0])
+    if outs[0][0] != outs[1][0]:
+        r.violation(f"C20/samples.{op}/not-reproducible/{ns}", {"default_rng_calls": outs[0][2], "user_rng_advanced": outs[0][1]}, case)
+    if not outs[0][1]:
+        r.violation(f"C20/samples.{op}/user-generator-not-used/{ns}", {"default_rng_calls": outs[0][2]}, case)
+    r.sample(case)
+    return r.dump()
+
+
 def dispatch(job):
     return globals()[job[0]](job[1])
 
@@ -304,6 +361,13 @@ def run(tier, seed, workers):
         jobs.append(("run_reused_arguments", {"sampler": "smc", "seed": sd, "sampler_kwargs": {"n_steps": 2}}))
         jobs.append(("run_reused_arguments", {"sampler": "emcee_smc", "seed": sd,
                                               "sampler_kwargs": {"nsteps": 2, "progress": False, "moves": "user-moves", "n_final_steps": 4}}))
+    for op, ns, dt in itertools.product(("rejection", "resample"), ("numpy", "torch", "jax"), ("float64", "float32")):
+        for sd in sorted({0, 1, seed}):
+            if tier == "quick" and sd == 1:
+                continue
+            jobs.append(("run_sample_ops", {"op": op, "ns": ns, "dtype": dt, "seed": sd}))
+            if op == "resample" and tier == "thorough":
+                jobs.append(("run_sample_ops", {"op": op, "ns": ns, "dtype": dt, "seed": sd, "n": 20}))
     for d in pmap("checks.c20", "dispatch", jobs, workers):
         rep.merge(d)
     rep.count("configs", len(cfgs))
@@ -314,6 +378,9 @@ def run(tier, seed, workers):
 
 def replay(case):
     r = Report()
+    if case.get("sample_ops"):
+        r.merge(run_sample_ops(case["cfg"]))
+        return r
     if case.get("reused_arguments"):
         r.merge(run_reused_arguments(case["cfg"]))
         return r
